@@ -9,6 +9,14 @@ namespace Hmf.Spec.Guards
 def integrate : List (String × String) := [
 
 ]
+/-- range checks made when a fitting function is constructed: Tinker10's normalisation needs γ > 0, η > −1/2, η − φ > −1/2, β > 0,
+    tested on the redshift-evolved coefficients the fit actually uses (`self.gamma`, …), Tinker et al. 2010 eq. 8–12 -/
+def fitParameterRanges : List (String × String) := [
+  ("Tinker10", "self.beta > 0.0"),
+  ("Tinker10", "self.eta - self.phi > -0.5"),
+  ("Tinker10", "self.eta > -0.5"),
+  ("Tinker10", "self.gamma > 0.0")
+]
 def fits : List (String × String) := [
   ("Angulo", "self.m < 1e+16"),
   ("Angulo", "self.m > 100000000.0"),
